@@ -42,7 +42,11 @@ IFACES = {
     "K4": "A(id int, url string, é int) (int, int)",
     "K5": "A(a int)",
     "K6": "A()",
+    "K7": "A(vs ...interface{})",              # sole parameter variadic of interface type
+    "K8": "A(vs ...interface{}) int",
+    "K9": "A(a T, b T) T",                     # generic interface K9[T any], instantiated with int by the drivers
 }
+GENERIC = {"K9": ("[T any]", "[int]")}
 OPT_PKGS = [(k, bool(k & 1), bool(k & 2), bool(k & 4)) for k in range(8)]  # (k, skip-ensure, stub-impl, with-resets)
 TESTIFY_PKGS = [("t0", False), ("t1", True)]                               # (pkg, unroll-variadic)
 LOCKOPS = ("lock", "unlock", "rlock", "runlock")
@@ -60,7 +64,7 @@ def tick(ctx, what):
 
 # ------------------------------------------------------------------ world
 def build_world(ctx):
-    src = "package src\n\n" + "".join("type %s interface {\n\t%s\n\tB(x int) int\n}\n" % (n, s) for n, s in IFACES.items())
+    src = "package src\n\n" + "".join("type %s%s interface {\n\t%s\n\tB(x int) int\n}\n" % (n, GENERIC.get(n, ("", ""))[0], s) for n, s in IFACES.items())
     w = ctx.new_world({"src/src.go": src, "srcr/src.go": src.replace("package src", "package srcr", 1)}, module=MOD, name="c05world")
     pk = {}
     for pkg, want in (("src", False), ("srcr", True)):
@@ -92,8 +96,8 @@ def build_world(ctx):
         (w / "drv" / name).mkdir(parents=True)
         shutil.copy(vlib.VERIF / "drivers" / "concdrv" / name / "main.go", w / "drv" / name / "main.go")
     imp = "".join('\tm%d "%s/out/m%d"\n' % (k, MOD, k) for k, *_ in OPT_PKGS) + "".join('\t%s "%s/out/%s"\n' % (t, MOD, t) for t, _ in TESTIFY_PKGS)
-    ment = "".join('\t"m%d/%s": func() interface{} { return &m%d.Moq%s{} },\n' % (k, n, k, n) for n in IFACES for k, *_ in OPT_PKGS)
-    tent = "".join('\t"%s/%s": func(t tT) interface{} { return %s.NewMock%s(t) },\n' % (t, n, t, n) for n in IFACES for t, _ in TESTIFY_PKGS)
+    ment = "".join('\t"m%d/%s": func() interface{} { return &m%d.Moq%s%s{} },\n' % (k, n, k, n, GENERIC.get(n, ("", ""))[1]) for n in IFACES for k, *_ in OPT_PKGS)
+    tent = "".join('\t"%s/%s": func(t tT) interface{} { return %s.NewMock%s%s(t) },\n' % (t, n, t, n, GENERIC.get(n, ("", ""))[1]) for n in IFACES for t, _ in TESTIFY_PKGS)
     (w / "drv" / "stress" / "registry.go").write_text(
         "package main\n\nimport (\n" + imp + '\t"github.com/stretchr/testify/mock"\n)\n\n'
         "type tT interface {\n\tmock.TestingT\n\tCleanup(func())\n}\n\n"
@@ -414,7 +418,7 @@ def run(ctx):
             foot[t] = dev
             ctx.note("testify footprint prediction (%s): %s" % (t, "; ".join(dev[:3])))
         nm = [m for m in info[t]["methods"] if m["recv"].startswith("Mock")]
-        if len(nm) < 6 * 2 * 4:
+        if len(nm) < len(IFACES) * 2 * 4:
             raise MachineryError("vacuous: extractor saw only %d testify methods in %s" % (len(nm), t))
 
     # ------------------------------------------------------------ 3. the real-code oracle: stress under -race
@@ -494,13 +498,14 @@ def run(ctx):
         for k, v in res["stats"].items():
             stats[k] = stats.get(k, 0) + v
         targets |= set(res["targets"])
-    if n_viol and (len(targets) < 48 + 12 or not all_hist):
+    NT = len(IFACES) * (len(OPT_PKGS) + len(TESTIFY_PKGS))
+    if n_viol and (len(targets) < NT or not all_hist):
         # the stress process died on the way (a consequence of the violations already recorded): verdict stands
         ctx.cov["stress_targets"] = len(targets)
         return {"level": "model_checking", "exhaustive": False}
-    if len(targets) < 48 + 12:
+    if len(targets) < NT:
         raise MachineryError("vacuous: stress ran on %d targets only" % len(targets))
-    for need in ("calls", "concurrent_reads", "concurrent_resets", "testify_calls", "testify_concurrent_on", "testify_expecter_rounds", "histories"):
+    for need in ("calls", "concurrent_reads", "concurrent_resets", "testify_calls", "testify_concurrent_on", "testify_expecter_rounds", "testify_concurrent_first_expect", "recorder_targets", "histories"):
         if not stats.get(need):
             raise MachineryError("vacuous: stress statistics lack %s" % need)
     if predictions and not n_viol:
